@@ -13,13 +13,13 @@ def add(id, engine, category, technique, text, note, ref):
     CHECKS[id] = dict(engine=engine, category=category, technique=technique, text=text, note=note, ref=ref)
 
 add("C01", "X", "model_checking",
-    "explicit-state model checking (stateright BFS) over two real Connection objects + lossy network; budgets bound faults",
+    "explicit-state model checking (stateright BFS) over two real Connection objects + lossy network; budgets bound faults (loss, duplication, clock advances, datagrams the environment refuses to send)",
     "Every reachable state of two real endpoints (0.6+token, 0.6 without token, 0.7) joined by a network that may deliver in any order, drop and duplicate, within per-state budgets (sends, drops, dups, clock advances); monitors compare every delivered chunk with the submitted list. A coverage statement over all schedules within the budgets, which is what the property quantifies over.",
     "Trusted: stateright 0.31 search and its 64-bit fingerprints (a collision can only hide a state); the verif_view hook renders the complete connection state; bounds as listed in the evidence (configurations).",
     "DESIGN.md 3/C01")
 
 add("C02", "X", "model_checking",
-    "explicit-state model checking (stateright) + fair-suffix ranking executed on the real objects from every unique state; payload-length sweep under a wall-clock watchdog; configurations starting after 1022/1023 chunks (wrapped sequence numbers)",
+    "explicit-state model checking (stateright) + fair-suffix ranking executed on the real objects from every unique state; payload-length sweep under a wall-clock watchdog; configurations starting after 1022/1023 chunks (wrapped sequence numbers), configurations with datagrams the environment refuses to send; the multi-peer model: Net::needs_tick against per-address reference deadlines in every reachable state",
     "From every reachable state of the two-endpoint model (i.e. after every finite fault prefix within the budgets) the fair suffix is executed on the real endpoints and must reach the goal (ready, all vital chunks delivered and acknowledged, nothing queued) within 24 rounds; the deadline invariant is checked on every state; every call runs under a watchdog; every payload length 0..1391 and boundary pairs are lost once and must be recovered.",
     "Trusted: stateright search; the fair scheduler defined in model.rs (rank); watchdog limit 30 s per call; bounds in the evidence.",
     "DESIGN.md 3/C02")
@@ -52,7 +52,7 @@ add("C20", "X", "model_checking",
     "DESIGN.md 3/C20")
 
 add("C07", "E", "exploration",
-    "bounded exhaustive enumeration of compressor/decompressor inputs x output capacities x code tables, differential against the bundled C++ reference",
+    "bounded exhaustive enumeration of compressor/decompressor inputs x output capacities x code tables, differential against the bundled C++ reference; growable buffers reused after a failed call",
     "Per code table (built-in, shipped file, 15 synthetic vectors): all inputs of length <=2, every length 0..4096 x 4 content classes, all decoder inputs of length <=2 (<=3 thorough) x every capacity between canaries, prefixes/extensions/substitutions of valid streams; round trip, exact predicted lengths, byte identity with the C++ reference, agreement whenever the reference decodes, capacity errors exactly when needed.",
     "Trusted: the bundled C++ reference as linked by the repository's own dev-dependency; tables the constructor refuses (code depth > 24) are skipped.",
     "DESIGN.md 3/C07")
@@ -63,7 +63,7 @@ add("C08", "E", "exploration",
     "DESIGN.md 3/C08")
 
 add("C09", "E", "exploration",
-    "exhaustive enumeration of all ordered pairs of snapshots over small key universes; differential against the bundled DDNet C++ reference",
+    "exhaustive enumeration of all ordered pairs of snapshots over small key universes (raw layer) and of seven worlds with UUID-identified types x routes x fresh / reused apply targets (typed layer); grid of item counts x shared keys up to 1024+1024 delta entries; differential against the bundled DDNet C++ reference",
     "All ordered pairs over universes of 4/5 keys x 3/4 data vectors (fixed-size universes: every pair; variable-size universes: pairs with a size change hit the recorded known finding): delta create -> apply directly, via bytes, via ints, the DDNet reference's delta applied here, serialization equal to the reference builder; limit families at 1024 items / 64 KiB; universes with keys of type 0 and ids on both sides of 0x4000 / 0x8000; insertion orders, dirty target objects.",
     "Trusted: bundled DDNet reference within its own domain (type ids <= 0x3fff); values from a 6-element alphabet; items added in ascending key order.",
     "DESIGN.md 3/C09")
@@ -74,29 +74,29 @@ add("C10", "E", "exploration",
     "DESIGN.md 3/C10")
 
 add("C11", "E", "exploration",
-    "bounded exhaustive enumeration of parser inputs (all short int sequences, all single/neighbouring-double field corruptions, truncations, hostile structures) + all pairs of a pool of accepted snapshots and deltas; allocation measured by a counting allocator",
+    "bounded exhaustive enumeration of parser inputs (all short int sequences, all single/neighbouring-double field corruptions, truncations, hostile structures) + all pairs of a pool of accepted snapshots and deltas; every input also read into used objects and into objects whose previous read was refused half-way; allocation measured by a counting allocator",
     "Every input of the finite families is parsed as snapshot and as delta in int and byte form; every accepted delta is applied to every accepted snapshot of a pool and Delta::create runs between all pool pairs; oracle: returns, no panic, allocation <= 64 x input + 64 KiB, accepted => <=1024 items and <=64 KiB, write/read equality, follow-up operations (items, item, crc, write, recycle + add_item).",
     "Trusted: counting global allocator with thread-local counters; pool limited to ~330 snapshots x ~320 deltas.",
     "DESIGN.md 3/C11")
 
 add("C12", "E", "exploration",
-    "exhaustive enumeration of message sequences (all sequences of length <= n+2 over parts of the current, an older and a newer tick, n <= 5/6 parts) against a reference receiver; listed permutation families up to 32 parts",
+    "exhaustive enumeration of message sequences (all sequences of length <= n+2 over parts of the current, an older and a newer tick and messages with impossible part numbers, n <= 5/6 parts) against a reference receiver; listed permutation families up to 32 parts",
     "For every part count up to 5 (quick) / 6 (thorough), data lengths on both sides of each 900-byte boundary and 6 tick/base pairs, every sequence - hence every permutation with every duplication pattern, interleaved with older and newer ticks - is fed to a real DeltaReceiver and compared step by step with a reference receiver; zero warnings demanded. For 7..32 parts only listed families are run (labelled so in the evidence). For n <= 3 additionally 71 tick/base pairs on both sides of every integer-length boundary and 5 settings with older / newer ticks more than 2^31 away (negative ticks).",
     "Trusted: reference receiver (set of part numbers of the newest tick); messages produced by the real sender delta_chunks.",
     "DESIGN.md 3/C12")
 add("C13", "X", "model_checking",
-    "explicit-state model checking (stateright BFS) of a real sender Storage and a real receiver Manager over two lossy channels",
+    "explicit-state model checking (stateright BFS) of a real sender Storage and a real receiver Manager over two lossy channels; alphabet includes reset() of either side; linear histories of 101..250 snapshots",
     "Every reachable state within budgets (ticks, drops, duplications, acknowledgements) of the real sender/receiver pair; worlds contain ordinal items, two UUID types of different sizes, a multi-part snapshot, an empty and an all-zero item, three worlds with equal checksums and three whose ids / type ids sit on the length boundaries of the integer code; linear histories of 101..250 snapshots; accepted snapshots are compared with the sender's world through items() and item(type,id); errors must not move the acknowledged tick to that tick; panics are violations (one recorded known finding).",
     "Trusted: stateright search; state key = history hash of each real object (over-fine, cannot hide states).",
     "DESIGN.md 3/C13")
 
 add("C15", "E", "exploration",
-    "bounded exhaustive enumeration of chunk sequences (raw level) and world histories (typed level), written by the real writers into memory and read back by the real readers",
+    "bounded exhaustive enumeration of chunk sequences (raw level) and world histories (typed level), incl. calls the writer refuses, game messages and long messages, written by the real writers into memory and read back by the real readers",
     "All raw chunk sequences up to depth 3/4 over ticks on both sides of the inline-delta limit, key frames, payloads with compressed sizes around 29/30 and 255/256, padded messages; every payload size family incl. the largest representable; all header string lengths; all typed world histories up to depth 4/5 over 5 object sets (ordinal + two UUID-typed sizes) x tick steps {+1,+250,+251} x non-increasing ticks; every raw tick gap 1..1100 and around every power of two; every pair of absolute ticks out of 31 values from i32::MIN to i32::MAX.",
     "Trusted: round trip through the library's own reader is the property; one recorded known finding (UUID type number reuse across consecutive snapshots panics in Delta::create).",
     "DESIGN.md 3/C15")
 add("C16", "E", "exploration",
-    "bounded exhaustive enumeration of file corruptions produced from an independent datafile writer; every accessor traversed after opening",
+    "bounded exhaustive enumeration of file corruptions produced from an independent datafile writer; every accessor traversed after opening; environment faults (short / failed callback reads) enumerated per call and cut length",
     "A family of ~300 well-formed v3/v4 files from an independent writer must be returned exactly (raw reader with in-memory callbacks and file reader via memfd); every header/table/offset/size/item word set to ~20 boundary values, consistent unaligned item resizes, truncation at every byte, data byte flips; a hand-built valid map with every item word set to 18 boundary values and data blocks resized; all datafile and map accessors are called on whatever opens.",
     "Trusted: independent writer transcribed from doc/datafile.md; zlib via the repository's own binding; sanitizer run of the same enumerator is part of C19's thorough tier.",
     "DESIGN.md 3/C16")
@@ -112,7 +112,7 @@ add("C14", "E", "exploration",
     "Trusted: the interpreter's per-kind wire conventions (varint, NUL-terminated string, length-prefixed data, 32-bit object words); flags and invalid-optional cases are not judged. Known findings: four snapshot objects with boolean members re-expose padding bytes.",
     "DESIGN.md 3/C14")
 add("C18", "E", "exploration",
-    "bounded exhaustive enumeration of datagram field values and of part orders (all sequences up to parts+2 for <= 4 parts; listed permutation families beyond)",
+    "bounded exhaustive enumeration of datagram field values and of part orders (all sequences up to parts+2 for <= 4 parts; listed permutation families beyond), with parts of another server's answer in between",
     "Each of the thirteen response kinds with every numeric field set to 25 boundary/garbage values, truncations, client counts / offsets / packet numbers around 16, 24 and 64; multi-part infos of servers with N clients merged in every order with every duplication for <= 4 parts against a 'set of parts seen' reference: complete exactly when every part was seen, every client exactly once.",
     "Trusted: datagrams built from doc/serverinfo_extended.md and the legacy 64-player layout; parts come from a consistent server.",
     "DESIGN.md 3/C18")
